@@ -29,6 +29,9 @@ RULE = (
     "on every further call; block_size/hop_size/block_dur equal the model; ValueError for the rejected ones. "
     "Non-trivial = overlap with >= 3 blocks, or max_read strictly inside a block, or visible data shorter than a block."
 )
+RULE += (
+    ' Also: samples pulled out of a buffer source == visible data; a redundant open() mid-stream changes nothing; hop_dur one ulp above block_dur is rejected, one ulp below is an overlapping reader.'
+)
 MUST_HIT = ["source_already_partly_consumed", "fractional_durations", "hop_lt_block_same_samples", "empty_visible_with_overlap", "over_reads", "overlap_3_blocks", "max_read_inside_block",
             "visible_shorter_than_block", "rejected", "kind_wav_lazy", "kind_raw_lazy", "kind_stdin", "kind_stdin_pipe",
             "kind_raw_fifo", "more_than_one_io_buffer", "block_longer_than_65536_samples", "redundant_open_mid_stream"]
